@@ -1,17 +1,20 @@
 ---- MODULE J_C16 ----
 EXTENDS Frame, Events, Json, IOUtils, TLC
 (* C16: capacity |m| suffices; below it out-of-memory is reported, never a payload, and the next frame is delivered. *)
-ClassOf(fe) == IF fe = 2 THEN 1 ELSE IF fe = 5 THEN 3 ELSE 4
+ClassOf(fe) == IF fe \in {2, 16} THEN 1 ELSE IF fe = 5 THEN 3 ELSE 4
 NoLookAlike(m) == \A j \in 1..Len(m) : m[j] \in {27, 0, 85}
 Mon(r) ==
   LET n  == Norm(ClassOf(r.fe), r.e)
-      L1 == FrameLen(r.m)
+      G  == Len(r.g)                          \* noise bytes (not containing 0x1b) in front of the first frame
+      L1 == G + FrameLen(r.m)
       T  == L1 + FrameLen(r.f)
-      R  == n.res
+      R0 == n.res
+      R  == IF G > 0 /\ R0 # <<>> /\ R0[1] = EvDisc(G + 8, G) THEN Drop(R0, 1) ELSE R0
   IN /\ n.wf /\ n.left = 0
+     /\ (G > 0 => R0 # <<>> /\ R0[1] = EvDisc(G + 8, G))
      /\ IF r.cap >= Len(r.m)
         THEN R = <<EvOk(L1, r.m), EvOk(T, r.f)>>
-        ELSE /\ \E k \in 1..Len(R) : EvKind(R[k]) = 3 /\ EvPos(R[k]) > 8 /\ EvPos(R[k]) <= L1
+        ELSE /\ \E k \in 1..Len(R) : EvKind(R[k]) = 3 /\ EvPos(R[k]) > G + 8 /\ EvPos(R[k]) <= L1
              /\ \A k \in 1..Len(R) : EvKind(R[k]) = 1 => EvPos(R[k]) > L1
              /\ R # <<>> /\ Last(R) = EvOk(T, r.f)
              /\ (NoLookAlike(r.m) =>
